@@ -10,7 +10,11 @@ Instance: every pairing of a block expression B with a label variable a in
   `queue_.push_back(std::make_pair(B, a))`.
 Obligation: evidence that a is in inset(B): a is the variable of a range-for over `B->inset_` /
 `B->inset()`, or a guard `B->inset_.contains(a)` holds at the site, or B and a are both parameters of the
-function (the pairing was made by the caller / popped from the queue)."""
+function (the pairing was made by the caller / popped from the queue).
+
+Clause `whole`: `X->states_` of a block X received as a *parameter* is read only before the first call that can
+restructure blocks (a function that transitively assigns Block::states_, e.g. split): processRemove must build the
+predecessor list of the whole dequeued block, not of the half that is left after the split (seeds C04-3, C05-5)."""
 from vfacts import strip, walk, is_node, method_name, known_facts, root_path
 from .prov import var_table
 
@@ -112,3 +116,94 @@ def run(unit, em):
             else:
                 em.violation(node, txt, '%s for block `%s` under label `%s`, but nothing shows the label is in the inset of that block (it does not range over %s->inset_ and no contains() guard holds): per-label data of a block exists only for its inset' % (
                     what, bn, sa.get('n'), bn), 'inset')
+
+
+# ---- clause `whole`: the state list of a block received as a parameter is read before blocks are restructured ----
+def states_writers(unit):
+    """decl ids of functions in the engine that (transitively) assign the field `states_` of a Block"""
+    fns = [f for f in unit.functions if f.body is not None and 'explicit_lts_sim' in f.file]
+    direct = set()
+    for f in fns:
+        for n in f.walk():
+            if n['k'] in ('BinaryOperator', 'CXXOperatorCallExpr') and n.get('op') == '=':
+                ops = n.get('ch') if n['k'] == 'BinaryOperator' else n.get('args')
+                l = strip(ops[0]) if ops else None
+                if l is not None and l['k'] == 'MemberExpr' and l.get('n') == 'states_' and 'StateListElem' in unit.ty(l):
+                    direct.add(f.d['d'])
+    closure = set(direct)
+    changed = True
+    while changed:
+        changed = False
+        for f in fns:
+            if f.d['d'] in closure:
+                continue
+            for c in f.walk():
+                if c['k'] in ('CallExpr', 'CXXMemberCallExpr', 'CXXConstructExpr', 'CXXTemporaryObjectExpr', 'CXXNewExpr') and c.get('cd') in closure:
+                    closure.add(f.d['d'])
+                    changed = True
+                    break
+                if c['k'] == 'CXXNewExpr':
+                    for x in walk(c):
+                        if x['k'] in ('CXXConstructExpr',) and x.get('cd') in closure:
+                            closure.add(f.d['d'])
+                            changed = True
+    return closure
+
+
+def run_whole(unit, em):
+    from vfacts import must_pass_through
+    W = None
+    for fn in unit.functions:
+        if fn.body is None or 'explicit_lts_sim' not in fn.file:
+            continue
+        params = {p['d']: p for p in fn.params if unit.ty(p).rstrip().endswith('*')}
+        if not params:
+            continue
+        reads = []
+        for n in fn.walk():
+            if n['k'] == 'MemberExpr' and n.get('n') == 'states_' and 'StateListElem' in unit.ty(n):
+                b = n.get('ch') or [n.get('obj')]
+                x = strip(b[0]) if b and is_node(b[0]) else None
+                if x is not None and x['k'] == 'DeclRefExpr' and x.get('d') in params:
+                    reads.append((n, x['d']))
+        if not reads:
+            continue
+        if W is None:
+            W = states_writers(unit)
+        cfg = fn.cfg()
+        if cfg is None:
+            continue
+
+        def restructures(m):
+            if m['k'] in ('CallExpr', 'CXXMemberCallExpr', 'CXXConstructExpr') and m.get('cd') in W:
+                return True
+            return False
+        for n, d in reads:
+            tid = {id(x) for x in walk(n)}
+            # is there a path entry -> restructuring call -> this read ?
+            bad = None
+            for c in fn.walk():
+                if not restructures(c):
+                    continue
+                pos = cfg.locate(c)
+                if pos is None:
+                    continue
+                ok, w = must_pass_through(cfg, pos, lambda m: id(m) in tid, lambda m: False)
+                if not ok:
+                    bad = c
+                    break
+            txt = unit.text(n, 40)
+            name = params[d].get('n')
+            if bad is None:
+                em.ok(n, txt, 'the states of the block `%s` handed in by the caller are read before any call that can split blocks' % name, 'whole')
+            else:
+                em.violation(n, txt, '`%s->states_` is read after `%s`, which can split blocks (it reassigns Block::states_): the block handed in by the caller may by then hold only one half of its states, so what is computed from it (the predecessor blocks) is incomplete' % (
+                    name, unit.text(bad, 40)), 'whole')
+
+
+_run_pairs = run
+
+
+def run(unit, em):
+    _run_pairs(unit, em)
+    run_whole(unit, em)
